@@ -157,6 +157,7 @@ def main(argv=None):
     raw = run_units(units, timeout_ms, only_prop=prop)
     known = load_known()
     failed, undecided, internal = [], [], []
+    probe_cache = {}
     n_ob = n_dis = 0
     by_backend, by_kind = {}, {}
     solver_s = 0.0
@@ -200,6 +201,20 @@ def main(argv=None):
                 else:
                     undecided.append("%s: %s (candidate did not reproduce)" % (r["name"], r["reason"]))
             else:
+                # the solver could not decide.  If the contract names an independent concrete oracle for its clauses, that
+                # oracle is run on the real code: a failing input it finds is a violation (replayed, by construction);
+                # finding none leaves the obligation undecided.  (An undecided obligation never becomes a violation by itself.)
+                probe = getattr(c, "undecided_probe", None)
+                if probe and r["kind"] != "cover":
+                    key = (c.cid, json.dumps(probe, sort_keys=True))
+                    if key not in probe_cache:
+                        probe_cache[key] = replayer.run_harness(probe["harness"], dict(probe, obligation=r["name"], seed=seed), timeout=300)
+                    rep = dict(probe_cache[key], case=probe)
+                    if rep.get("reproduced"):
+                        r["replay_done"] = rep
+                        r["reason"] += " (decided by the concrete oracle of the clause)"
+                        failed.append((c, ov, r))
+                        continue
                 undecided.append("%s: %s" % (r["name"], r["reason"]))
     # guards against a wrong verifier (DESIGN 5.2): the axioms of the two models against the running CPython
     guards = []
